@@ -48,6 +48,9 @@ def main(dirs):
                 base = os.path.basename(d.rstrip("/"))
                 rnd = re.match(r"out(\d+)_", base)
                 sid = f"{pid}-r{rnd.group(1)}-{n}" if rnd else f"{pid}-{n}"
+                grp = re.match(r"out\d+_([A-Z])$", base)
+                if grp:
+                    sid = f"{pid}-r{rnd.group(1)}{grp.group(1)}-{n}"
                 log = {}
                 sh(["git", "-C", WT, "checkout", "--", "."])
                 rc, out = sh(["/venv/bin/python", demo], cwd=WT, env=env)
